@@ -339,7 +339,9 @@ func TestPrograms(t *testing.T) {
 		Gen: func(t *rapid.T) Case {
 			flags := sgen.Flags(t, sgen.FlagPoolNonSig)
 			var p sgen.Program
-			switch rapid.IntRange(0, 7).Draw(t, "level") {
+			switch rapid.IntRange(0, 9).Draw(t, "level") {
+			case 8, 9:
+				p = sgen.DeepStack(t, flags)
 			case 6:
 				p = sgen.P2SHLookalike(t, flags)
 			case 7:
